@@ -369,7 +369,8 @@ PROPS["C18"] = {
     "anchors": [("test_and_mark", "src/util/metadata/mark_bit.rs"), ("pin_object", "src/util/metadata/pin_bit.rs"), ("log_object", "src/plan/barriers.rs"),
                 ("compare_exchange_metadata", "src/util/metadata/global.rs")],
     "kani": {"prefix": "c18_", "files": ["c18_transitions.rs", "obj.rs", "side.rs", "vm.rs", "interference.rs"], "timeout_quick": 900, "timeout_thorough": 2400,
-             "features_quick": [["object_pinning"]], "features_thorough": [["object_pinning"], []]},
+             "features_quick": [["object_pinning"]], "features_thorough": [["object_pinning"], []],
+             "harness_features": {"c18_pin_side": ["object_pinning"], "c18_pin_header_hi": ["object_pinning"], "c18_pin_header_lo": ["object_pinning"]}},
     "functions": ["MarkState::{new, is_marked, test_and_mark, on_global_release}", "VMLocalMarkBitSpec::{mark, is_marked}",
                   "VMLocalPinningBitSpec::{pin_object, unpin_object, is_object_pinned}", "ObjectBarrier::{log_object, object_is_unlogged}",
                   "VMGlobalLogBitSpec::{is_unlogged, mark_as_unlogged}", "MetadataSpec::{load, load_atomic, store_atomic, compare_exchange_metadata} (header and side dispatch)"],
@@ -559,12 +560,12 @@ PROPS["C19"] = {
                    "len == blocks held, iterate yields exactly the held blocks, replace exchanges the contents of the two queues without loss; at CAPACITY (256, code constant, concrete "
                    "loop) the next push is refused and returns the block. BlockPool with two workers and three symbolic blocks pushed by workers 0, 1, 0: len == blocks held, "
                    "iterate_blocks yields each once, worker-local blocks are not handed out before a flush, after flush_all every held block is popped exactly once, only pushed blocks "
-                   "are popped, and the pool is then empty. Thorough tier: 257 pushes by one worker (queue overflow moves the full queue to the global list), all 257 blocks popped "
-                   "exactly once. Concurrent push/pop/flush histories -- the quantifier of the property -- are outside this family (Kani has no threads).",
-    "bounds": ["sequential histories: 3 symbolic blocks / 2 workers (quick), 257 concrete blocks / 1 worker (thorough)", "BlockQueue::CAPACITY = 256 (code constant)"],
+                   "are popped, and the pool is then empty. The overflow of a full worker-local queue inside BlockPool::push (257th push) is NOT covered: the harness for it "
+                   "(c19_pool_overflow_exp) does not finish within 45 minutes and is kept as an experiment only. Concurrent push/pop/flush histories -- the quantifier of the property -- are outside this family (Kani has no threads).",
+    "bounds": ["sequential histories: 3 symbolic blocks / 2 workers", "BlockQueue::CAPACITY = 256 (code constant) for the queue-level capacity harness"],
     "assumptions": ["atomicity of the cursor fetch_update and the RwLock (sequential semantics)", "push_relaxed is only called by the owning worker (its safety contract)"],
     "trusted_base": ["kani::stub of scheduler::worker::current_worker_ordinal (thread-local) and of core::hint::spin_loop (pause intrinsic)", "spin::RwLock as compiled by Kani"],
-    "not_covered": ["all concurrent histories", "BlockPageResource::{alloc_pages, release_block} (need a VM map, mmapper and VM threads)"],
+    "not_covered": ["all concurrent histories", "BlockPool::push's overflow path (full worker-local queue handed to the global list)", "BlockPageResource::{alloc_pages, release_block} (need a VM map, mmapper and VM threads)"],
 }
 
 PROPS["C22"] = {
